@@ -124,7 +124,7 @@ class Digit(Parser):
         out = ''
         for i in range(self.n):
             c = stream.peek()
-            if not c.isdigit():
+            if not (c.isascii() and c.isdigit()):
                 stream.error('<digit>')
             out += stream.take()
         output.append(int(out))
@@ -148,10 +148,10 @@ class Number(Parser):
 
     def __call__(self, stream, output):
         out = stream.peek()
-        if not out.isdigit():
+        if not (out.isascii() and out.isdigit()):
             stream.error('<number>')
         stream.take()
-        while stream.peek().isdigit():
+        while stream.peek().isascii() and stream.peek().isdigit():
             out += stream.take()
         output.append(int(out))
 
